@@ -1,6 +1,7 @@
 (* C18 — property theorems only.  Each is closed by [exact <lemma>] and followed by
    Print Assumptions; the statements are pinned here so they cannot be quietly weakened. *)
-From FB Require Import C18.Model C18.Model2 C18.Theory C18.Theory2 C18.NamesGen.
+From FB Require Import C18.Model C18.Model2 C18.Theory C18.Theory2 C18.Theory3 C18.NamesGen.
+From Coq Require Import Arith.
 
 (* Parsing a field descriptor yields exactly the structure the JVMS grammar assigns to it,
    and fails on every string outside the grammar. *)
@@ -269,3 +270,79 @@ Print Assumptions C18_descriptor_tables_model.
 Theorem C18_examples2 : nonvacuous2.
 Proof. exact nonvacuous2_holds. Qed.
 Print Assumptions C18_examples2.
+
+(* ================================================================== *)
+(* Round 5 *)
+
+(* "fails on every string outside the grammar" for return and method descriptors too *)
+Theorem C18_return_rejects_outside_grammar : forall s, (forall r, ~ ReturnG s r) -> parse_return s = Err.
+Proof. exact parse_return_rejects. Qed.
+Print Assumptions C18_return_rejects_outside_grammar.
+
+Theorem C18_method_rejects_outside_grammar : forall s, (forall m, ~ MethodG s m) -> parse_method s = Err.
+Proof. exact parse_method_rejects. Qed.
+Print Assumptions C18_method_rejects_outside_grammar.
+
+(* split_inner_class_parent_and_name answers exactly on parent$inner: parent non-empty and not ending in `/`, inner
+   name non-empty and free of `/` and `$` *)
+Theorem C18_split_iff : forall s p i, split_inner s = Some (p, i) <-> s = join_inner p i /\ inner_ok p i.
+Proof. exact split_inner_iff. Qed.
+Print Assumptions C18_split_iff.
+
+(* get_inner_class_name, get_inner_class_parent and the split agree with each other on EVERY string: the name (the parent)
+   is answered exactly where the split answers, with the split's half, and the two halves join to the input *)
+Theorem C18_inner_helpers_agree : forall s,
+  (forall i, inner_name s = Some i <-> exists p, split_inner s = Some (p, i)) /\
+  (forall p, inner_parent s = Some p <-> exists i, split_inner s = Some (p, i)) /\
+  (inner_name s = None <-> split_inner s = None) /\
+  (inner_parent s = None <-> split_inner s = None) /\
+  (forall p i, inner_parent s = Some p -> inner_name s = Some i -> join_inner p i = s).
+Proof. exact inner_helpers_agree. Qed.
+Print Assumptions C18_inner_helpers_agree.
+
+Theorem C18_inner_name_iff : forall s i, inner_name s = Some i <-> exists p, s = join_inner p i /\ inner_ok p i.
+Proof. exact inner_name_spec. Qed.
+Print Assumptions C18_inner_name_iff.
+
+Theorem C18_inner_parent_iff : forall s p, inner_parent s = Some p <-> exists i, s = join_inner p i /\ inner_ok p i.
+Proof. exact inner_parent_spec. Qed.
+Print Assumptions C18_inner_parent_iff.
+
+(* com/sun/proxy/$Proxy0, $Proxy0, a/$b, a/B$ are valid object class names and not inner class names for any helper;
+   a/B$C$D splits at the last `$` *)
+Theorem C18_inner_examples : inner_examples.
+Proof. exact inner_examples_hold. Qed.
+Print Assumptions C18_inner_examples.
+
+(* the dimension cap as an equation, for EVERY number k of `[` in front of every base type (primitive letter or
+   L<class name>;): field and return descriptors, array class names, class names, ArrClassName::dimension ... *)
+Theorem C18_dimension_cap : forall k b a, BaseG b a ->
+  parse_field (repeat cLBRACK k ++ b) = (if (k <=? 255)%nat then Ok (ty_of (N.of_nat k) a) else Err) /\
+  parse_return (repeat cLBRACK k ++ b) = (if (k <=? 255)%nat then Ok (Some (ty_of (N.of_nat k) a)) else Err) /\
+  is_valid_arr_class_name (repeat cLBRACK k ++ b) = ((1 <=? k)%nat && (k <=? 255)%nat)%bool /\
+  ((1 <= k)%nat -> is_valid_class_name (repeat cLBRACK k ++ b) = (k <=? 255)%nat) /\
+  ((1 <= k <= 255)%nat -> arr_dimension (repeat cLBRACK k ++ b) = Ok (N.of_nat k)).
+Proof.
+  exact (fun k b a H => conj (dimension_cap_field k b a H) (conj (dimension_cap_return k b a H)
+          (conj (dimension_cap_arr_class_name k b a H) (conj (dimension_cap_class_name k b a H) (dimension_cap_dimension k b a H))))).
+Qed.
+Print Assumptions C18_dimension_cap.
+
+(* ... and a parameter / the return type of a method descriptor, behind any parameters *)
+Theorem C18_dimension_cap_method : forall ss ps k b a rs rt, Forall2 FieldTypeG ss ps -> BaseG b a -> ReturnG rs rt ->
+  parse_method (cLPAR :: concat ss ++ repeat cLBRACK k ++ b ++ cRPAR :: rs)
+    = (if (k <=? 255)%nat then Ok (ps ++ [ty_of (N.of_nat k) a], rt) else Err) /\
+  parse_method (cLPAR :: concat ss ++ cRPAR :: repeat cLBRACK k ++ b)
+    = (if (k <=? 255)%nat then Ok (ps, Some (ty_of (N.of_nat k) a)) else Err).
+Proof. exact dimension_cap_method. Qed.
+Print Assumptions C18_dimension_cap_method.
+
+(* more than 255 `[` are an error whatever follows them *)
+Theorem C18_dimension_cap_any_tail : forall k r, (255 < k)%nat -> read_field_type (repeat cLBRACK k ++ r) = Err.
+Proof. exact read_field_type_over. Qed.
+Print Assumptions C18_dimension_cap_any_tail.
+
+(* 254 / 255 / 256 / 257 dimensions with a primitive and an object element through every predicate that counts them *)
+Theorem C18_dimension_cap_examples : dimension_cap_examples.
+Proof. exact dimension_cap_examples_hold. Qed.
+Print Assumptions C18_dimension_cap_examples.
